@@ -20,6 +20,23 @@ CHECK_DEADLOCK FALSE
 """
 
 
+READS = ["pga", "pgv", "pgd", "velocity", "displacement"]
+
+
+def read_object(o, k):
+    """Read the five derived quantities of an AccSignal in the k-th order (all 120 orders occur), then
+    read each a second time; what is returned is the LAST value read (reads must be idempotent and must
+    not disturb each other)."""
+    import itertools
+    order = list(itertools.permutations(READS))[k % 120]
+    got = {}
+    for name in order:
+        got[name] = getattr(o, name)
+    for name in order[::-1]:
+        got[name] = getattr(o, name)
+    return got
+
+
 def table_row(code, digits):
     import eqsig
     from eqsig.displacements import calc_velo_and_disp_from_accel_arr as f
@@ -31,8 +48,9 @@ def table_row(code, digits):
             v, d = f(a.copy(), dt, trap=True)
             v2, d2 = f(a.copy(), dt, trap=False)
             o = eqsig.AccSignal(a.copy(), dt)
+            ob = read_object(o, code)
             fl = [v[-1], d[-1], im.calc_peak(a), im.calc_peak(v), im.calc_peak(d), v2[-1], d2[-1],
-                  o.velocity[-1], o.displacement[-1], o.pga, o.pgv, o.pgd]
+                  ob["velocity"][-1], ob["displacement"][-1], ob["pga"], ob["pgv"], ob["pgd"]]
             for x in fl:
                 row += enc(x)
     return row
@@ -59,13 +77,8 @@ def series_record(tid, fn, a, dt, trap, rng):
         o = eqsig.AccSignal(a.copy(), dt)
         if not trap:
             o.generate_displacement_and_velocity_series(trap=False)
-        # read order varies: peaks first or series first
-        if rng.random() < 0.5:
-            pk = (o.pga, o.pgv, o.pgd)
-            v, d = o.velocity, o.displacement
-        else:
-            v, d = o.velocity, o.displacement
-            pk = (o.pga, o.pgv, o.pgd)
+        ob = read_object(o, int(rng.integers(120)))      # read order varies over all permutations
+        v, d, pk = ob["velocity"], ob["displacement"], (ob["pga"], ob["pgv"], ob["pgd"])
         rec.update(v=enc_seq(v), d=enc_seq(d), haspeaks=True, pga=enc(pk[0]), pgv=enc(pk[1]), pgd=enc(pk[2]))
     return rec
 
